@@ -5,7 +5,7 @@ from ..ref import P, L, to32, le
 
 REQUIRED = ['u:small-order', 'u:twist', 'u:noncanon', 'u:bit255', 'u:oncurve', 'u:random', 'dh:agree', 'conv:identity',
             'conv:u=-1', 'conv:twist', 'conv:roundtrip', 'eq:modp', 'contributory:false', 'contributory:true', 'iterated',
-            'ed2x', 'u:near-special', 'os-random']
+            'ed2x', 'u:near-special', 'os-random', 'ed2x:mul_clamped', 'ed2x:small-order-key']
 
 
 def B(x):
@@ -173,6 +173,26 @@ def ed_to_x(ctx, n):
                 cls='ed2x')
         # StaticSecret built from the scalar bytes derives the same public key
         ctx.add('x.dh', sb.hex(), to32(9).hex(), expect=[mont], cls='ed2x')
+    # the Edwards route to X25519: mul_clamped on an Edwards point followed by to_montgomery is x25519 on its u-coordinate,
+    # for every kind of secret (top byte 0x7f / 0xff / 0x40, low bits set) and points with and without torsion
+    for _ in range(n * 2):
+        p = vals.Pt(rng.randrange(1, L), rng.choice([0, 0, 1, 4, 7]))
+        kb = bytearray(vals.rb(rng, 32))
+        kb[31] = rng.choice([0x7f, 0xff, 0x40, 0x3f, 0x00, kb[31]])
+        kb[0] = rng.choice([0x07, 0xff, 0x00, kb[0]])
+        kb = bytes(kb)
+        k = le(ref.clamp(kb))
+        u = to32(ref.ed_to_mont(p.affine()))
+        r = ctx.add('ed.mulclamped', p.tok(), kb.hex(), expect=pts.expect_ed(vals.pt_mul(k, p).affine()), cls='ed2x:mul_clamped')
+        ctx.add('ed.tomont', ctx.ref(r, 1), expect=[ref.x25519(kb, u).hex()], cls='ed2x:mul_clamped')
+        ctx.add('mt.mulclamped', u.hex(), kb.hex(), expect=[ref.x25519(kb, u).hex()], cls='ed2x:mul_clamped')
+    # VerifyingKey::to_montgomery follows the birational map for every key, also the small-order ones
+    for t in ref.TORSION:
+        Ab = ref.ed_compress(t)
+        ctx.add('sig.vk_ctor', Ab.hex(), expect=['ok', Ab.hex(), 'T', to32(ref.ed_to_mont(t)).hex()], cls='ed2x:small-order-key')
+    for _ in range(n):
+        p = vals.Pt(rng.randrange(1, L), rng.randrange(8))
+        ctx.add('sig.vk_ctor', p.encoding().hex(), expect=['ok', p.encoding().hex(), 'F', to32(ref.ed_to_mont(p.affine())).hex()], cls='ed2x')
 
 
 def make(seed, size, iters=0):
